@@ -206,7 +206,7 @@ func (p *Parser) parseBuffer(buf []byte, last bool) error {
 			off += i
 			continue
 		case colonColon:
-			p.mode = valueMap
+			p.mode = commaMap
 			continue
 		case skipChar: // skip and continue
 			continue
